@@ -3,7 +3,8 @@
 (* Catalogue of small channel configurations for C13 (model Channels).     *)
 (* A case is built in stages (topology, primary inbound declaration "a" of *)
 (* task t1, a second inbound declaration, primary outbound declaration     *)
-(* "x", a second outbound declaration); every complete choice is a case.   *)
+(* "x", a second outbound declaration, stale chans.* defaults in template   *)
+(* properties); every complete choice is a case.                            *)
 (*  Size = "core": small domains, enumerated exhaustively (BFS) - the      *)
 (*                 deterministic part of every run;                         *)
 (*  Size = "mid" / "large": larger domains, exhaustive model check of the  *)
@@ -16,8 +17,8 @@ EXTENDS Channels
 
 CONSTANTS Size
 
-VARIABLES stage, topo, ib1, ib2, ob1, ob2
-gvars == <<stage, topo, ib1, ib2, ob1, ob2>>
+VARIABLES stage, topo, ib1, ib2, ob1, ob2, props
+gvars == <<stage, topo, ib1, ib2, ob1, ob2, props>>
 
 NoIn == [lvl |-> "none", name |-> "", addr |-> "tcp", tr |-> "default", alias |-> "", xt |-> ""]
 NoOut == [lvl |-> "none", name |-> "", tk |-> "none", tt |-> "", tn |-> "", ta |-> "", tr |-> "default"]
@@ -99,21 +100,34 @@ Ob2Dom ==
          \cup {Out(l, "y", t, "default") : l \in {x \in {"role:t2", "role:t1", "root"} : OwnerPresent(x, topo)},
                                           t \in {PathA, <<"path", "t1", "b", "">>, <<"alias", "", "", "g">>, <<"xtcp", "", "", "">>}}
 
-GenInit == stage = 0 /\ topo = <<>> /\ ib1 = NoIn /\ ib2 = NoIn /\ ob1 = NoOut /\ ob2 = NoOut
-G_Topo == stage = 0 /\ \E t \in Topos : topo' = t /\ stage' = 1 /\ UNCHANGED <<ib1, ib2, ob1, ob2>>
-G_Ib1 == stage = 1 /\ \E d \in Ib1Dom : ib1' = d /\ stage' = 2 /\ UNCHANGED <<topo, ib2, ob1, ob2>>
-G_Ib2 == stage = 2 /\ \E d \in Ib2Dom : ib2' = d /\ stage' = 3 /\ UNCHANGED <<topo, ib1, ob1, ob2>>
-G_Ob1 == stage = 3 /\ \E d \in Ob1Dom : ob1' = d /\ stage' = 4 /\ UNCHANGED <<topo, ib1, ib2, ob2>>
-G_Ob2 == stage = 4 /\ \E d \in Ob2Dom : ob2' = d /\ stage' = 5 /\ UNCHANGED <<topo, ib1, ib2, ob1>>
-\* the case is complete after stage 5; the last step has a single successor so that `tlc -simulate`
+\* stale chans.<name>.0.* defaults left in the `properties:` of a task template: for the binder's channel
+\* "a", the connector's channel "x", both, or for a channel the task does not (necessarily) have
+P(t, n) == [task |-> t, name |-> n]
+PropsDom ==
+  LET plain == ib2 = NoIn /\ ob2 = NoOut /\ ob1.lvl = "role:t2"
+  IN CASE Size = "core" ->
+            IF plain /\ ob1.tk \in {"path", "alias"} /\ ob1.tn \in {"a", ""} /\ ob1.ta \in {"g", ""} /\ ob1.tt \in {"t1", ""}
+              THEN {<<>>, <<P("t1", "a"), P("t2", "x")>>, <<P("t2", "a")>>} ELSE {<<>>}
+       [] Size \in {"mid", "large"} -> IF plain THEN {<<>>, <<P("t1", "a"), P("t2", "x")>>, <<P("t2", "a")>>} ELSE {<<>>}
+       [] OTHER -> {<<>>, <<P("t1", "a")>>, <<P("t1", "a"), P("t1", "x")>>}
+                   \cup (IF "t2" \in Ids(topo) THEN {<<P("t2", "x")>>, <<P("t1", "a"), P("t2", "x")>>, <<P("t2", "a")>>, <<P("t1", "b"), P("t2", "y")>>} ELSE {})
+
+GenInit == stage = 0 /\ topo = <<>> /\ ib1 = NoIn /\ ib2 = NoIn /\ ob1 = NoOut /\ ob2 = NoOut /\ props = <<>>
+G_Topo == stage = 0 /\ \E t \in Topos : topo' = t /\ stage' = 1 /\ UNCHANGED <<ib1, ib2, ob1, ob2, props>>
+G_Ib1 == stage = 1 /\ \E d \in Ib1Dom : ib1' = d /\ stage' = 2 /\ UNCHANGED <<topo, ib2, ob1, ob2, props>>
+G_Ib2 == stage = 2 /\ \E d \in Ib2Dom : ib2' = d /\ stage' = 3 /\ UNCHANGED <<topo, ib1, ob1, ob2, props>>
+G_Ob1 == stage = 3 /\ \E d \in Ob1Dom : ob1' = d /\ stage' = 4 /\ UNCHANGED <<topo, ib1, ib2, ob2, props>>
+G_Ob2 == stage = 4 /\ \E d \in Ob2Dom : ob2' = d /\ stage' = 5 /\ UNCHANGED <<topo, ib1, ib2, ob1, props>>
+G_Props == stage = 5 /\ \E d \in PropsDom : props' = d /\ stage' = 6 /\ UNCHANGED <<topo, ib1, ib2, ob1, ob2>>
+\* the case is complete after stage 6; the last step has a single successor so that `tlc -simulate`
 \* (which evaluates the invariants on every candidate successor) reports only the case it has drawn
-G_Emit == stage = 5 /\ stage' = 6 /\ UNCHANGED <<topo, ib1, ib2, ob1, ob2>>
-GenNext == G_Topo \/ G_Ib1 \/ G_Ib2 \/ G_Ob1 \/ G_Ob2 \/ G_Emit
+G_Emit == stage = 6 /\ stage' = 7 /\ UNCHANGED <<topo, ib1, ib2, ob1, ob2, props>>
+GenNext == G_Topo \/ G_Ib1 \/ G_Ib2 \/ G_Ob1 \/ G_Ob2 \/ G_Props \/ G_Emit
 GenSpec == GenInit /\ [][GenNext]_gvars
 
 Case == [tasks |-> topo, inb |-> SelectSeq(<<ib1, ib2>>, LAMBDA d : d.lvl # "none"),
-         outb |-> SelectSeq(<<ob1, ob2>>, LAMBDA d : d.lvl # "none")]
-Done == stage = 6
+         outb |-> SelectSeq(<<ob1, ob2>>, LAMBDA d : d.lvl # "none"), props |-> props]
+Done == stage = 7
 
 \* consistency invariants of the model over the catalogue
 InvWellFormed == Done => WellFormed(Case)
@@ -121,6 +135,7 @@ InvExpectedIsFunction == Done => ExpectedIsFunction(Case)
 InvRejectedIffBad == Done => RejectedIffBad(Case)
 InvModelViolExplained == Done => ModelViolExplained(Case)
 
-Vocab == [xin_tcp |-> XAddr("tcp"), xin_ipc |-> XAddr("ipc"), xout_tcp |-> OutXAddr("xtcp"), xout_ipc |-> OutXAddr("xipc")]
+Vocab == [xin_tcp |-> XAddr("tcp"), xin_ipc |-> XAddr("ipc"), xout_tcp |-> OutXAddr("xtcp"), xout_ipc |-> OutXAddr("xipc"),
+          stale_address |-> StaleAddr, stale_method |-> StaleMethod, stale_transport |-> StaleTransport]
 PrintCase == Done => PrintT(<<"CASE", Case, Outcome(Case), ModelViol(Case), Vocab>>)
 =============================================================================
